@@ -114,9 +114,11 @@ func (rs *rawServer) serve(i int, l net.Listener) {
 // dnsStub: a UDP DNS server that answers every A question with 127.0.0.1 (and every other question
 // with an empty answer).
 type dnsStub struct {
-	pc net.PacketConn
-	mu sync.Mutex
-	n  int
+	pc      net.PacketConn
+	mu      sync.Mutex
+	n       int            // questions of any type
+	nA      int            // A questions
+	byLabel map[string]int // A questions by the first label of the name asked
 }
 
 func newDNSStub() (*dnsStub, error) {
@@ -124,7 +126,7 @@ func newDNSStub() (*dnsStub, error) {
 	if err != nil {
 		return nil, err
 	}
-	d := &dnsStub{pc: pc}
+	d := &dnsStub{pc: pc, byLabel: map[string]int{}}
 	go func() {
 		buf := make([]byte, 1500)
 		for {
@@ -156,6 +158,12 @@ func newDNSStub() (*dnsStub, error) {
 			}
 			d.mu.Lock()
 			d.n++
+			if qtype == 1 {
+				d.nA++
+				if l := int(q[12]); 13+l <= n {
+					d.byLabel[strings.ToLower(string(q[13:13+l]))]++
+				}
+			}
 			d.mu.Unlock()
 			pc.WriteTo(resp, from)
 		}
@@ -165,6 +173,17 @@ func newDNSStub() (*dnsStub, error) {
 
 func (d *dnsStub) addr() string { return d.pc.LocalAddr().String() }
 func (d *dnsStub) close()       { d.pc.Close() }
+func (d *dnsStub) aQueries(label string) int {
+	if d == nil {
+		return 0
+	}
+	d.mu.Lock()
+	defer d.mu.Unlock()
+	if label == "" {
+		return d.nA
+	}
+	return d.byLabel[label]
+}
 func (d *dnsStub) queries() int {
 	if d == nil {
 		return 0
@@ -245,7 +264,7 @@ func genE2E(r *kit.Rng) *e2eCase {
 			ec.nDst = 0 // the target names the listener directly
 		}
 		if r.Chance(0.5) {
-			ec.dnsTTL = r.PickStr([]string{"-1", "0", "1s", "50ms"})
+			ec.dnsTTL = r.PickStr([]string{"-1", "0", "1s", "50ms", "-1s", "-30s", "-5m", "10s"})
 			groups = append(groups, []string{"-dns-ttl=" + ec.dnsTTL})
 		}
 		// … combined with the flags that configure the connection pool and the protocol, in both values: none
@@ -381,7 +400,11 @@ func runE2ECase(c *run.Ctx, s *kit.Summary, ec *e2eCase, id int) {
 	}
 	tf, out := filepath.Join(dir, "targets.txt"), filepath.Join(dir, "results.gob")
 	os.WriteFile(tf, []byte("GET "+target+"\n"), 0o644)
-	args := []string{"attack", "-targets", tf, "-output", out, "-duration", "200ms", "-rate", "40/1s", "-timeout", "2s"}
+	dur := "200ms"
+	if ec.Resolvers {
+		dur = "300ms" // a dozen hits: the lookups are counted against them
+	}
+	args := []string{"attack", "-targets", tf, "-output", out, "-duration", dur, "-rate", "40/1s", "-timeout", "2s"}
 	for _, a := range ec.Args {
 		for i := range rs.ln {
 			a = strings.ReplaceAll(a, fmt.Sprintf("{L%d}", i), rs.addr(i))
@@ -483,6 +506,42 @@ func runE2ECase(c *run.Ctx, s *kit.Summary, ec *e2eCase, id int) {
 				Expected: "the name is looked up at the listed servers", Observed: fmt.Sprintf("%d requests received, dns queries at the listed server: 0", len(reqs)),
 				Key: map[string]interface{}{"e2e": true, "combo": combo}})
 			return
+		}
+		// -dns-ttl: "Specifies the duration to cache DNS lookups for. A zero value caches forever. A negative
+		// value disables caching altogether." Every hit opens a connection of its own (the listener closes after
+		// each answer), so without caching the address lookups keep coming with the hits, and with a cache that
+		// outlives the run they stop after the first hit.
+		ttlText := ec.dnsTTL
+		if ttlText == "" {
+			ttlText = "0" // the flag's default
+		}
+		ttl, perr := time.ParseDuration(ttlText)
+		if ttlText == "-1" {
+			ttl, perr = -1, nil
+		} else if ttlText == "0" {
+			ttl, perr = 0, nil
+		}
+		if hits, a := len(reqs), dns.aQueries(""); perr == nil && hits >= 6 {
+			got := fmt.Sprintf("%d hits arrived, %d address lookups at the listed server", hits, a)
+			key := map[string]interface{}{"e2e": true, "combo": combo, "dns_ttl": ttlText}
+			switch {
+			case ttl < 0:
+				s.Count("e2e:dns lookups judged, negative ttl")
+				if a < hits/2 {
+					s.Violate(kit.Violation{Kind: "dns_ttl_meaning", What: "a negative -dns-ttl did not disable caching: the lookups stop although the hits go on", Input: ec,
+						Expected: "no caching: about one address lookup per hit (at least half as many)", Observed: got, Key: key})
+					return
+				}
+			case ttl == 0 || ttl >= 5*time.Second:
+				s.Count("e2e:dns lookups judged, cached for the whole run")
+				if a > 4 {
+					s.Violate(kit.Violation{Kind: "dns_ttl_meaning", What: "lookups are not cached for the -dns-ttl given (0 = forever)", Input: ec,
+						Expected: "lookups for the first hit only (at most 4)", Observed: got, Key: key})
+					return
+				}
+			default:
+				s.Count("e2e:dns lookups counted, ttl shorter than the run (not judged)")
+			}
 		}
 	}
 	want := multiset(ec.headers)
@@ -621,7 +680,7 @@ func e2eMatrix() []*e2eCase {
 	}
 	// -resolvers with every kind of -dns-ttl (negative = no caching, zero = for ever, positive) and the
 	// connection-reuse / protocol values: the listed servers are the ones asked in every one of them
-	for _, ttl := range []string{"-1", "-5s", "0", "50ms", "1s"} {
+	for _, ttl := range []string{"-1", "-1ns", "-1s", "-5s", "-30s", "-1h", "0", "50ms", "1s", "1h"} {
 		for _, p := range []string{"", "-keepalive=false", "-keepalive=true", "-http2=false", "-http2=true"} {
 			args := []string{"-header=x-e2e: 1", "-resolvers={DNS}", "-dns-ttl=" + ttl}
 			if len(out)%2 == 0 {
